@@ -91,6 +91,10 @@ def extract(repo=REPO, no_cache=False, target_dir=None, log=sys.stderr):
         out = os.path.join(CACHE, "facts", digest)
         done = os.path.join(out, "DONE")
         if os.path.exists(done) and not no_cache:
+            try:
+                os.utime(out, None)  # LRU: a memo hit refreshes the entry
+            except OSError:
+                pass
             return out, digest, False, time.time() - t0
         if os.path.exists(out):
             shutil.rmtree(out)
@@ -143,9 +147,19 @@ def extract(repo=REPO, no_cache=False, target_dir=None, log=sys.stderr):
                        "wall_s": time.time() - t0}, fh)
         os.rename(tmp, out)
         # keep the cache small: drop all but the 14 newest fact dirs
+        # (facts of the repository itself and of scratch copies are retained separately, so a burst of scratch
+        # extractions cannot evict the repository's own facts)
         dirs = sorted(glob.glob(os.path.join(CACHE, "facts", "*")), key=os.path.getmtime, reverse=True)
-        for d in dirs[14:]:
-            shutil.rmtree(d, ignore_errors=True)
+        own, other = [], []
+        for d in dirs:
+            try:
+                r = json.load(open(os.path.join(d, "DONE"))).get("repo")
+            except Exception:
+                r = None
+            (own if r == REPO else other).append(d)
+        for d in own[6:] + other[10:]:
+            if d != out:
+                shutil.rmtree(d, ignore_errors=True)
         return out, digest, True, time.time() - t0
     finally:
         fcntl.flock(lockf, fcntl.LOCK_UN)
